@@ -538,7 +538,23 @@ def run_chains(ctx, binary, base):
             ctx.report("re-export-through-middle-module", "a module that imports `%s` and exports members typed with the imported classes: exit %d, printed %r %s, expected %r"
                        % (cid, r[0], got[-4:], why[:1], exp), {"case": cid, "files": files, "expected": exp, "observed": got, "rc": r[0], "stderr": r[2][-500:], "how": "mscript run main.ms -q"})
     ctx.cov["middle_module_import_order_cases"] = len(cases)
-    return len(cases)
+    # a class (stored as a function named after it) whose name is one the compiler deals out itself: `__module__` is the
+    # module's own top-level code, `__fn<N>` the N-th function literal.  Either the name is refused, or everything works;
+    # the module's top-level code runs ONCE either way
+    body = "  v: int\n  constructor(self) {\n    self.v = 5\n  }\n}\n"
+    gcs = [("single module, class __module__", {"main.ms": "print \"top\"\nclass __module__ {\n" + body + "k = __module__()\nprint k.v\nprint \"end\"\n"}, ["top", "5", "end"]),
+           ("imported module, class __module__", {"main.ms": "print \"main\"\nimport lib\nk = lib.__module__()\nprint k.v\nprint \"end\"\n",
+                                                  "lib.ms": "print \"init lib\"\nexport class __module__ {\n" + body}, ["main", "init lib", "5", "end"]),
+           ("class __fn0 next to a function literal", {"main.ms": "f = fn() -> int {\n  return 1\n}\nclass __fn0 {\n" + body + "print f()\nk = __fn0()\nprint k.v\n"}, ["1", "5"]),
+           ("class __fn1 before two function literals", {"main.ms": "class __fn1 {\n" + body + "f = fn() -> int {\n  return 1\n}\ng = fn() -> int {\n  return 2\n}\nprint f() + g()\nk = __fn1()\nprint k.v\n"}, ["3", "5"])]
+    for (cid, files), r, exp in zip([(g[0], g[1]) for g in gcs], programs.pmap(one, [(g[0], g[1]) for g in gcs]), [g[2] for g in gcs]):
+        got = r[1].split("\n")[:-1]
+        refused = "Did not compile successfully" in r[2] and not any(l in ("top", "main", "init lib") for l in got)
+        if not refused and (r[0] != 0 or got != exp):
+            ctx.report("class-named-like-a-generated-function", "%s: exit %d, printed %r, expected %r (or a compile-time refusal of the name): %s"
+                       % (cid, r[0], got[-5:], exp, r[2][-200:].replace("\n", " ")), {"case": cid, "files": files, "expected": exp, "observed": got, "rc": r[0], "stderr": r[2][-500:], "how": "mscript run main.ms -q"})
+    ctx.cov["generated_name_cases"] = len(gcs)
+    return len(cases) + len(gcs)
 
 
 def run_function_imports_and_types(ctx, binary):
